@@ -114,6 +114,9 @@ func TestC03(t *testing.T) {
 		Prop:  "C03",
 		Rule:  "rapid draws histories of create / create-with-task / complete requests on 1-2 ids with key in {absent,k1,k2}, strict flag, requested state, timing around the timeout, plus retries: an identical copy of an earlier request re-submitted after its response, after its response was lost to an injected failure, racing the original in the same tick, or after a crash. Oracle: status table R1-R3 written from the statement, justified by some committed state inside the request window, and at most one creation/completion effect and one invocation task per id. Non-trivial: the history contains an exact retry with a non-absent key, a retry after a lost response, or a same-tick race of identical requests.",
 		Fatal: []string{"C03"},
+		// "no repeat ... ever changes the promise (other than letting an overdue time-out take effect)": a time-out that
+		// takes effect through a create or complete request must be exactly the time-out (state, empty value, no
+		// completion key, completion time = timeout), in the store and in the response
 		Build: func(d D) *Case {
 			g := DefaultGen(d)
 			g.Pids = []string{"p1", "p2"}[:d.Int(1, 2, "npids")]
@@ -172,6 +175,11 @@ func TestC03(t *testing.T) {
 		},
 		Extra: func(s *Sim) []Violation {
 			var vs []Violation
+			for _, v := range Judge(s) {
+				if v.Prop == "C04" && v.Code == "O3" {
+					vs = append(vs, Violation{"C03", "R4", "", "a request changed the promise beyond letting its time-out take effect: " + v.Msg})
+				}
+			}
 			created, completed := map[string]int{}, map[string]int{}
 			for _, tx := range s.Txs {
 				for _, c := range tx.Diff {
@@ -537,6 +545,8 @@ func TestC10(t *testing.T) {
 			g := DefaultGen(d)
 			g.W = map[string]int{"CreateSchedule": 5, "DeleteSchedule": 2, "ReadSchedule": 1, "CreatePromise": 2, "ReadPromise": 1}
 			g.RouteOneIn = 0
+			g.SchedRouteOneIn = 4
+			g.Scheds = []string{"sch1", "sch2", "s&<'\"+>"} // ids are interpolated into promise ids verbatim, whatever they contain
 			c := &Case{Cfg: GenConfig(d, 8), Prof: Profile{Bg: []string{"SchedulePromises", "TimeoutPromises"}, Permute: true, Hold: 6, Cut: 2}, Gen: g, Steps: [2]int{4, 14}, MaxRq: 2,
 				Dts: []int64{0, 0, 1, 500, 1000, 1000, 2000, -1, -1, -2, -3, 5000, 12000}, Settle: 8}
 			c.Cfg.SignalTimeout = time.Second
